@@ -13,6 +13,8 @@ func init() {
 			"(C04-d) the pair key and the IP-merge grouping key are separator-joined (injective) concatenations of (src,dst) and (non-IP end, conn1, conn2); only key attributes are read from a group's representative and sides are re-inserted as they were; " +
 			"(C04-e) row equality is ConnectionSet.Equal on sets rebuilt from both rows, and Equal compares every map-valued field in both directions (DeepEqual, or equal lengths plus a lookup of every key where a missing key means unequal); " +
 			"(C04-mute) diff's two reports are computed by analyzers built with WithMuteErrsAndWarns, `list` computes its report un-muted: in every function the flag reaches, a statement whose execution depends on it only logs; " +
+			"(C04-key-lossless) the text of a port set, which is part of the IP re-merge key through ConnectionSet.String, renders the numbered ports through the library's String() of the whole set (no abbreviation); " +
+			"(C04-peers) every successful return of the connectivity analysis hands out the peers list computed from GetPeersList (diff's new/lost workloads come from it), also when there is nothing to report; " +
 			"(C04-f) in package diff a binding that belongs to one side (first/conn1/ref1/...) is never computed from the other side only. " +
 			"NOT decided: losslessness of refine + merge for every pair of partitions and every address (arithmetic over 2^32 points)."
 		rules.DiffSameRefinement(p, r, "C04-a")
@@ -23,5 +25,7 @@ func init() {
 		rules.DiffWorkloadKeyAgreement(p, r, "C04-g")
 		rules.AllowAllResetsMap(p, r, "C04-e-canon")
 		rules.MuteDecidesLoggingOnly(p, r, "C04-mute")
+		rules.PortSetTextLossless(p, r, "C04-key-lossless")
+		rules.PeersListHandedOut(p, r, "C04-peers")
 	})
 }
